@@ -75,6 +75,7 @@ class Run:
         s.src = Source(s.repo)
         s.obls, s.functions, s.assumed, s.bounded_log, s.notes = [], {}, set(), [], []
         s.wrapped = {}
+        s._safety_seen = {}
         s.known_classes = []      # failure classes of the native harnesses that belong to listed known findings
         s.t0 = time.time()
         s.timeout = 40 if s.tier == "quick" else 300
@@ -90,6 +91,10 @@ class Run:
                 s.add(*o)
             else:
                 o.name = o.name if o.name.startswith(s.pid + "/") else f"{s.pid}/{o.name}"
+                if "/safety/" in o.name:          # the same site reached again (an inlined callee called twice, another path): numbered, not a duplicate
+                    k = s._safety_seen[o.name] = s._safety_seen.get(o.name, 0) + 1
+                    if k > 1:
+                        o.name = f"{o.name}#{k}"
                 s.obls.append(o)
 
     MODELLED_DECORATORS = re.compile(r"^(staticmethod|classmethod|property|[\w.]+\.(setter|getter|deleter)|(contextlib\.)?contextmanager|(typing\.)?(overload|final|override|no_type_check)|"
